@@ -292,6 +292,10 @@ struct ruge_stuben {
 
                 if (math::norm(a_min) < eps) {
                     cf[i] = 'F';
+                    // The row has no strong connections; the flags are
+                    // read below, so they have to be cleared:
+                    for(Ptr j = A.ptr[i], e = A.ptr[i + 1]; j < e; ++j)
+                        S.val[j] = false;
                     continue;
                 }
 
